@@ -98,6 +98,9 @@ def build_world():
     atom('R', 'plain', real('X', tX[1:3].sample('gauss', 3)))
     atom('T', 'plain', real('Z', tZ.trim(gZ[0] + gZ[1] - 1.25, maxrefine=0).sample('gauss', 1)))
     atom('V', 'plain', real('X', tX.trim(gX - 1.25, maxrefine=2).sample('gauss', 1)))
+    atom('W', 'plain', synthetic('Y', [0, 1], [3, 2]))
+    atom('AC', 'sum', p=[1, 2])
+    atom('BG', 'sum', p=[3, 4])
     atom('Ac', 'custom', 1, p=[2, 0, 1])
     atom('Bc', 'custom', 3, p=[1, 2, 0])
     atom('EX', 'empty', s=['X'])
@@ -112,6 +115,8 @@ def build_world():
         elif a['kind'] == 'custom':
             base = w.bases[a['b'] - 1]['sample']
             smp = Sample.new(base.space, base.transforms, base.points, numpy.array(a['p']))
+        elif a['kind'] == 'sum':
+            smp = w.bases[a['p'][0] - 1]['sample'] + w.bases[a['p'][1] - 1]['sample']
         else:
             smp = Sample.empty(tuple(a['s']), sum(w.ndims[s] for s in a['s']))
         w.atomsample[a['name']] = smp
